@@ -154,7 +154,7 @@ def parse_assumptions(out: str):
     for block in re.findall(r"Axioms:\n((?:.+\n?)+?)(?:\n|$)", out):
         for line in block.splitlines():
             m = re.match(r"^([A-Za-z_][\w.']*)\s*:", line)
-            if m:
+            if m and m.group(1) != "Axioms":
                 axioms.add(m.group(1))
     return closed, axioms
 
